@@ -185,11 +185,11 @@ RMODE_NUM = {"ok": 0, "enoent": 1, "esrch_open": 2, "esrch_read": 2, "eacces": 3
 
 
 def _nmaps(rng):
-    return rng.choice([0, 1, 1, 2, 2, 3, 3, 4, 5, 8]) if rng.random() < 0.93 else rng.choice([16, 25])
+    return rng.choice([0, 1, 1, 1, 2, 2, 3, 3, 4, 6]) if rng.random() < 0.97 else rng.choice([12, 25])
 
 
 def _full_case(rng, kind="full"):
-    ms = _mappings(rng, _nmaps(rng), edge=rng.random() < 0.1)
+    ms = _mappings(rng, _nmaps(rng) if kind == "full" else rng.choice([0, 1, 1, 2]), edge=rng.random() < 0.1)
     cons = rng.random() < 0.9
     c = {"kind": kind, "pagesize": _pagesize(rng), "has_rollup": rng.random() < 0.8, "rmode": rng.choice(RMODES + (["eacces"] if rng.random() < 0.2 else [])),
          "ex": _ex_for(rng, ms, False), "rollup": _rollup(rng, ms, cons), "ms": ms, "statm": _statm(rng)}
@@ -253,7 +253,7 @@ def _mutate(rng, ms):
 
 
 def gen_cases(rng, tier):
-    n = {"quick": 70, "thorough": 1500, "search": 150}[tier]
+    n = {"quick": 50, "thorough": 1200, "search": 120}[tier]
     cases = []
     # ---- statm
     for _ in range(n):
@@ -297,7 +297,7 @@ def gen_cases(rng, tier):
     for ps in (0, 1, 2):
         cases.append({"kind": "maps_raw", "cls": "maps-empty", "ps": ps, "ex": [], "mode": "ok", "content": rng.choice([b"", b"\n", b"  \n"]).hex()})
     # ---- memory_percent
-    for _ in range(max(2, n // 12)):
+    for _ in range(max(3, n // 12)):
         base = _full_case(rng, "percent")
         base["rmode"] = rng.choice(["ok", "ok", "enoent"])
         names = PFULL + ["", "RSS", "rss ", "private", "size", "pss_dirty", "swap\x00", "vms\n", "uss_", "total", "percent", "café"]
@@ -380,7 +380,26 @@ def coq_term(case):
     raise ValueError(k)
 
 
+_HEXINT = __import__("re").compile(r"^-?0x[0-9a-fA-F]+$")
+
+
+def _decode(x):
+    """inverse of Run.jz / Run.jpack: JC "0x1f" [] -> 31 ; JC "x<hex>" [] -> {"b": hex}"""
+    if isinstance(x, list):
+        return [_decode(y) for y in x]
+    if isinstance(x, dict) and "t" in x:
+        t, a = x["t"], x["a"]
+        if not a:
+            if _HEXINT.match(t):
+                return int(t, 16)
+            if t.startswith("x") and len(t) % 2 == 1 and all(ch in "0123456789abcdef" for ch in t[1:]):
+                return {"b": t[1:]}
+        return {"t": t, "a": [_decode(y) for y in a]}
+    return x
+
+
 def coq_struct(case, raw):
+    raw = _decode(raw)
     k = case["kind"]
     if k == "statm":
         return {"printed": raw[0], "model": raw[1], "spec": raw[2]}
